@@ -8,6 +8,7 @@ TIERS = {
 }
 
 
+LEGACY = ("1A1T_1_B.cif",)               # quick: this base also with the legacy atom names
 ANON = ("1JJP.cif", "1E7K_1_C.cif")     # quick: these bases also with unresolvable residue names
 
 
@@ -23,11 +24,26 @@ def build_cases(t):
             bases.append((name, [lib.seed() * 100 + j + 1, [20, 100, 300][j % 3]]))
         if name in ANON or t["jitter"]:
             bases.append((name, ["anon", 0]))
+        if name in LEGACY or t["jitter"]:
+            bases.append((name, ["legacy", 0]))
     cases = []
     for k, b in enumerate(beh):
         name, perturb = bases[k % len(bases)]
+        steps = [list(x) for x in b["steps"]]
+        # format sweep: TLC's simulation draws uniformly among ~45 enabled actions, so SwitchFormat is rare; every
+        # behaviour is therefore extended by the SwitchFormat steps the specification enables at its end (a text
+        # format only while no random rotation is part of the motion - Presentation!SwitchFormat's guard)
+        fmt = b["fmt0"]
+        for op, a in steps:
+            if op == "SwitchFormat":
+                fmt = ["obj", "pdb", "cif"][a]
+        if not any(op == "Rotate" for op, _ in steps):
+            for a, f in ((1, "pdb"), (2, "cif"), (0, "obj")):
+                if f != fmt:
+                    steps.append(["SwitchFormat", a])
+                    fmt = f
         cases.append({"id": f"p{k}-{name}" + (f"-{perturb[0]}" if perturb else ""), "base": name, "perturb": perturb,
-                      "fmt0": b["fmt0"], "steps": b["steps"]})
+                      "fmt0": b["fmt0"], "steps": steps})
     return cases, bases
 
 
@@ -58,7 +74,7 @@ def run(tier):
         cov["rule"] = (f"{len(cases)} behaviours of specs/Presentation.tla drawn by TLC -simulate (depth {t['depth']}, seed "
                        f"{lib.seed()}) over {{6 seeded random rotations, 23 exact axis permutations, 6 integer translations up "
                        f"to +-500 A, 3 atom-order shuffles, order-preserving chain renaming, 3 number shifts, 2 order-preserving renumberings that introduce insertion codes (n+1 becomes n^A), obj/PDB/mmCIF}}, "
-                       f"replayed cumulatively on {len(bases)} base structures (corpus files re-emitted by an independent "
+                       f"each extended by the format switches enabled at its end, replayed cumulatively on {len(bases)} base structures (corpus files re-emitted by an independent "
                        "emitter; thorough adds seeded jitter of 0.02/0.1/0.3 A as new bases; some bases also with every residue name made unresolvable so that base letters are detected from the atoms). After every step the real "
                        "reader + extract_secondary_structure run on the presented structure. Non-trivial = distinct "
                        "(base, behaviour) with at least 2 steps of different kinds.")
